@@ -3,7 +3,8 @@ from __future__ import annotations
 import ast
 import functools
 import itertools
-from collections.abc import Iterable, Mapping, Sequence
+import re
+from collections.abc import Generator, Iterable, Mapping, Sequence
 from numbers import Number
 from typing import (
     Any,
@@ -376,6 +377,34 @@ class ConstraintOperatorResolver(OperatorResolver):  # pylint: disable=unnecessa
     These operators describe a regular algebra rather than a Wikinson formula
     one.
     """
+
+    def resolve(
+        self, token: Token
+    ) -> Generator[tuple[Token, Iterable[Operator]], None, None]:
+        # Adjacent operator characters arrive as one token (e.g. "=-" in
+        # "a = -1"); as in formulae, runs of signs collapse by parity and the
+        # remaining characters are resolved one by one.
+        if token.token in self.operator_table:
+            yield from super().resolve(token)
+            return
+
+        symbol = token.token
+        while True:
+            m = re.search(r"[+\-]{2,}", symbol)
+            if not m:
+                break
+            symbol = (
+                symbol[: m.start(0)]
+                + ("-" if len(m.group(0).replace("+", "")) % 2 else "+")
+                + symbol[m.end(0) :]
+            )
+
+        if symbol in self.operator_table:
+            yield self._resolve(token, symbol)
+            return
+
+        for sym in symbol:
+            yield self._resolve(token, sym)
 
     @property
     def operators(self) -> list[Operator]:
